@@ -14,9 +14,10 @@ only the workers' programs. It is independent of how the logger is programmed.
   began, was accepted (its level was enabled and the logger not shut down when the call began) and
   whose write the environment did not fail, has been written when that FlushBuffer returns.
 A record logged through a derived `slog.Logger` after `Shutdown` may or may not be written (the
-statement does not say), so it is never *required*; likewise a record logged through a stale
-`slog.Logger` (obtained before `StartBuffering`; it is a different logger with the old configuration).
-The order and exactly-once clauses apply to everything that is written.
+statement does not say), so it is never *required*. A record logged through a stale `slog.Logger`
+(obtained with `Logger()` right after construction, before `StartBuffering`) is accepted by the level
+that logger was built with (Info; `SetLevel` and `Shutdown` do not reach it) and is then required
+like any other. The order and exactly-once clauses apply to everything that is written.
 -/
 namespace Rivaas.LogBuf
 
@@ -61,7 +62,7 @@ structure DMon where
 
 /-- must the record of this call be delivered, given the logger state when the call began -/
 def mustDeliver (level : Nat) (shutdown : Bool) (c : LogCall) : Bool :=
-  decide (level ≤ c.lvl) && !shutdown && !c.fail && !c.stale
+  (bif c.stale then decide (1 ≤ c.lvl) else decide (level ≤ c.lvl) && !shutdown) && !c.fail
 
 def dStep (custom : Bool) (progs : List (List Op)) (m : DMon) : Ev → DMon
   | .begin g i =>
